@@ -124,3 +124,112 @@ pub fn encode_replays(t: OwnedTerm, conv: u8) {
     vk::leak(raw);
     vk::leak(t);
 }
+
+// ---------------------------------------------------------------- logical ==/hash/cmp on the identifier types themselves
+use erltf::types::{ExternalPid, ExternalPort, ExternalReference};
+use std::cmp::Ordering;
+use std::hash::Hash;
+
+fn rec_of<T: Hash>(t: &T) -> Rec {
+    let mut r = Rec::new();
+    t.hash(&mut r);
+    r
+}
+
+fn ident_laws<T: Ord + Hash>(a: &T, b: &T, logical_eq: bool) {
+    vassert!((a == b) == logical_eq, "L:ident_eq_is_logical_fields_only");
+    let ab = a.cmp(b);
+    vassert!(ab == b.cmp(a).reverse(), "L:ident_cmp_antisym");
+    vassert!((ab == Ordering::Equal) == logical_eq, "L:ident_cmp_equal_iff_logical_eq");
+    vassert!(a.partial_cmp(b) == Some(ab), "L:ident_partial_cmp_agrees");
+    if logical_eq {
+        vassert!(rec_of(a).same(&rec_of(b)), "L:ident_hash_ignores_local_form");
+    }
+}
+
+/// form: 0 = plain vs node-local, 1 = node-local vs node-local (independent hash bytes)
+pub fn pid_laws(form: u8) {
+    let (n1, n2) = (crate::terms::ascii::<1>(), crate::terms::ascii::<1>());
+    let (i1, s1, c1) = (vk::u32(), vk::u32(), vk::u32());
+    let (i2, s2, c2) = (vk::u32(), vk::u32(), vk::u32());
+    let a = if form == 0 {
+        ExternalPid::new(atom_of(&n1), i1, s1, c1)
+    } else {
+        ExternalPid::with_local_ext_bytes(atom_of(&n1), i1, s1, c1, local_bytes())
+    };
+    let b = ExternalPid::with_local_ext_bytes(atom_of(&n2), i2, s2, c2, local_bytes());
+    ident_laws(&a, &b, n1 == n2 && i1 == i2 && s1 == s2 && c1 == c2);
+    vk::leak(a);
+    vk::leak(b);
+}
+pub fn port_laws(form: u8) {
+    let (n1, n2) = (crate::terms::ascii::<1>(), crate::terms::ascii::<1>());
+    let (i1, c1) = (vk::u64(), vk::u32());
+    let (i2, c2) = (vk::u64(), vk::u32());
+    let a = if form == 0 {
+        ExternalPort::new(atom_of(&n1), i1, c1)
+    } else {
+        ExternalPort::with_local_ext_bytes(atom_of(&n1), i1, c1, local_bytes())
+    };
+    let b = ExternalPort::with_local_ext_bytes(atom_of(&n2), i2, c2, local_bytes());
+    ident_laws(&a, &b, n1 == n2 && i1 == i2 && c1 == c2);
+    vk::leak(a);
+    vk::leak(b);
+}
+pub fn ref_laws(form: u8) {
+    let (n1, n2) = (crate::terms::ascii::<1>(), crate::terms::ascii::<1>());
+    let (w1, c1) = (vk::u32(), vk::u32());
+    let (w2, c2) = (vk::u32(), vk::u32());
+    let a = if form == 0 {
+        ExternalReference::new(atom_of(&n1), c1, [w1].to_vec())
+    } else {
+        ExternalReference::with_local_ext_bytes(atom_of(&n1), c1, [w1].to_vec(), local_bytes())
+    };
+    let b = ExternalReference::with_local_ext_bytes(atom_of(&n2), c2, [w2].to_vec(), local_bytes());
+    ident_laws(&a, &b, n1 == n2 && w1 == w2 && c1 == c2);
+    vk::leak(a);
+    vk::leak(b);
+}
+
+/// C: a conversion keeps the preserved bytes on the identifier (field-level; no encoder in the query)
+pub fn conversion_preserves(t: OwnedTerm, conv: u8) {
+    let raw: Vec<u8> = match local_bytes_of(&t) {
+        Some(b) => b.to_vec(),
+        None => {
+            vassert!(false, "L:harness_term_has_local_bytes");
+            return;
+        }
+    };
+    let o = if conv == 1 {
+        t.clone()
+    } else {
+        let b = BorrowedTerm::from(&t);
+        let mut o = b.to_owned();
+        vk::leak(b);
+        if conv == 5 {
+            // a reference with one id word: word 0 of the niche-encoded term is the ids capacity
+            pin_word0(&mut o, 1);
+        }
+        o
+    };
+    match local_bytes_of(&o) {
+        Some(lb) => {
+            let mut same = lb.len() == raw.len();
+            let mut i = 0;
+            while i < lb.len() && i < raw.len() {
+                if lb[i] != raw[i] {
+                    same = false;
+                }
+                i += 1;
+            }
+            vassert!(same, "L:conversion_keeps_local_ext_bytes");
+        }
+        None => vassert!(false, "L:conversion_keeps_local_ext_form"),
+    }
+    if conv < 4 {
+        vassert!(o == t, "L:conversion_keeps_value");
+    }
+    vk::leak(o);
+    vk::leak(raw);
+    vk::leak(t);
+}
